@@ -235,6 +235,15 @@ def oracle(text, result):
             bad.append('position-formfeed')
         if ty not in LITERALS and any(c in FOREIGN for c in tx):
             bad.append('foreign-char-in-' + ty)
+        # a quoted literal is classified by the table: opened by a run of n quotes it ends at the FIRST run of n quotes; for the
+        # common forms (n = 1, n = 3) the body therefore holds no run of n quotes and does not end in a quote
+        if ty in ('CharList', 'ByteList') and tx:
+            q = tx[0]
+            n = len(tx) - len(tx.lstrip(q))
+            if n in (1, 3) and len(tx) > 2 * n and tx.endswith(q * n):
+                body = tx[n:len(tx) - n]
+                if q * n in body or body.endswith(q):
+                    bad.append('literal-runs-past-its-closing-quotes')
         spans.append((off, off + len(tx), ty))
         off += len(tx)
     # blank line: a run of spaces/tabs/newlines made only of Whitespace/Subexpression tokens with >= 2 newlines
